@@ -83,7 +83,13 @@ func (c *pcCtx) parts(e ast.Expr) (pre []string, code string, mon bool) {
 				pgFail("the context %s used as a value", x.Name)
 			}
 			c.typ(v.Type())
+			if c.boxed[v] {
+				return nil, "Boxed.get" + c.boxKind(v) + " " + c.name(v), true
+			}
 			return nil, c.name(v), false
+		}
+		if v, ok := o.(*types.Var); ok && c.g.tree != nil && !v.IsField() {
+			return nil, c.g.tree.global(c, v), false
 		}
 		pgFail("identifier %s is not a local variable or a constant", x.Name)
 	case *ast.StarExpr:
@@ -102,6 +108,11 @@ func (c *pcCtx) parts(e ast.Expr) (pre []string, code string, mon bool) {
 			}
 			c.typ(sel.Obj().Type())
 			a := c.atom(x.X, &pre)
+			if c.isHeapPtr(c.info.TypeOf(x.X)) {
+				t := c.tmp()
+				pre = append(pre, "let "+t+" ← Go.load "+a)
+				return pre, t + "." + fld, false
+			}
 			if _, isPtr := c.info.TypeOf(x.X).Underlying().(*types.Pointer); isPtr && !c.isOwned(x.X) {
 				t := c.tmp()
 				pre = append(pre, "let "+t+" ← Go.deref "+a)
@@ -116,6 +127,9 @@ func (c *pcCtx) parts(e ast.Expr) (pre []string, code string, mon bool) {
 			case "data.EmptyIntMap":
 				return nil, "Data.EmptyIntMap", false
 			}
+		}
+		if v, ok := c.info.Uses[x.Sel].(*types.Var); ok && c.g.tree != nil && !v.IsField() && v.Pkg() != nil && v.Parent() == v.Pkg().Scope() {
+			return nil, c.g.tree.global(c, v), false
 		}
 		pgFail("selector %s is outside the subset", norm(x))
 	case *ast.IndexExpr:
@@ -173,6 +187,9 @@ func (c *pcCtx) parts(e ast.Expr) (pre []string, code string, mon bool) {
 		to, ok2 := c.g.leanType(c.info.TypeOf(x))
 		if ok1 && ok2 && from == to && from == "ReaderH" {
 			return c.parts(x.X)
+		}
+		if c.g.tree != nil && ok1 && ok2 {
+			return c.treeAssert1(x, from, to)
 		}
 		pgFail("type assertion %s is outside the subset", norm(x))
 	}
@@ -240,7 +257,7 @@ func (c *pcCtx) binary(x *ast.BinaryExpr) (pre []string, code string, mon bool) 
 				lt := c.typ(c.info.TypeOf(p[0]))
 				var r string
 				switch {
-				case lt == "Node" || lt == "Err" || lt == "Cause" || lt == "Parser" || strings.HasPrefix(lt, "(Map "):
+				case lt == "Node" || lt == "Err" || lt == "Cause" || lt == "Parser" || strings.HasPrefix(lt, "(Map ") || lt == "Interp" || lt == "Value":
 					r = a + ".isNil"
 				case strings.HasPrefix(lt, "(Option "):
 					r = a + ".isNone"
@@ -350,7 +367,7 @@ func (c *pcCtx) composite(x *ast.CompositeLit) (pre []string, code string, mon b
 func (c *pcCtx) closure(x *ast.FuncLit) string {
 	sig := c.info.TypeOf(x).(*types.Signature)
 	for _, o := range pgAssigned(c.info, x.Body) {
-		if !(x.Pos() <= o.Pos() && o.Pos() < x.End()) {
+		if !(x.Pos() <= o.Pos() && o.Pos() < x.End()) && !c.boxed[o] {
 			pgFail("the function literal assigns the captured variable %s", o.Name())
 		}
 	}
@@ -362,6 +379,7 @@ func (c *pcCtx) closure(x *ast.FuncLit) string {
 		}
 		return &pgTerm{pgTuple(vals, "pure ")}
 	}
+	sub.retRaw = func(v string) pgNode { return &pgTerm{"pure " + v} }
 	hdr := "fun"
 	for _, f := range x.Type.Params.List {
 		for _, id := range f.Names {
@@ -554,7 +572,10 @@ func (c *pcCtx) call(x *ast.CallExpr) (pre []string, code string, mon bool) {
 		if !ok {
 			pgFail("call of %s", o.Name())
 		}
-		c.typ(o.Type())
+		if c.typ(o.Type()) == "FnName" {
+			as := c.callArgs(x, sig, &pre)
+			return pre, c.g.tree.fnNameCall(c, c.name(o), as), true
+		}
 		as := c.callArgs(x, sig, &pre)
 		if len(as) == 0 {
 			as = []string{"()"}
@@ -595,7 +616,7 @@ func (c *pcCtx) call(x *ast.CallExpr) (pre []string, code string, mon bool) {
 		var as []string
 		if recv != nil && !fn.ctxRecv {
 			r := pcP(c.atom(recv, &pre))
-			if _, isPtr := c.info.TypeOf(recv).Underlying().(*types.Pointer); isPtr && !c.isOwned(recv) {
+			if _, isPtr := c.info.TypeOf(recv).Underlying().(*types.Pointer); isPtr && !c.isOwned(recv) && c.g.tree == nil {
 				if _, st := pgStructOf(c.info.TypeOf(recv)); st != nil {
 					t := c.tmp()
 					pre = append(pre, "let "+t+" ← Go.deref "+r)
@@ -623,6 +644,10 @@ func (c *pcCtx) ifaceCall(x *ast.CallExpr, f *ast.SelectorExpr, sel *types.Selec
 	sig := sel.Obj().Type().(*types.Signature)
 	m := sel.Obj().Name()
 	r := pcP(c.atom(f.X, &pre))
+	if c.g.tree != nil {
+		as := c.callArgs(x, sig, &pre)
+		return pre, c.g.tree.dispatch(c, rt, sel.Recv(), m, r, as), true
+	}
 	switch {
 	case rt == "Parser" && m == "Parse":
 		as := c.callArgs(x, sig, &pre)
@@ -649,6 +674,16 @@ func (c *pcCtx) externCall(x *ast.CallExpr, o *types.Func, recv ast.Expr) (pre [
 	sig := o.Type().(*types.Signature)
 	full := o.FullName()
 	full = strings.Replace(full, "github.com/opsidian/parsley/", "", 1)
+	if c.g.tree != nil {
+		switch full {
+		case "parsley.Parse":
+			as := c.callArgs(x, sig, &pre)
+			return pre, "W.Parse " + strings.Join(as, " "), true
+		case "parsley.NewError", "(*parsley.Context).UserContext", "(*parsley.FileSet).ErrorWithPosition":
+		default:
+			pgFail("call of %s, which is not among the translated functions", o.FullName())
+		}
+	}
 	switch full {
 	case "(data.IntSet).Union", "(data.IntMap).Get", "(data.IntMap).Inc", "(data.IntMap).Filter", "(data.IntMap).Keys":
 		r := pcP(c.atom(recv, &pre))
@@ -737,6 +772,11 @@ func (c *pcCtx) builtin(name string, x *ast.CallExpr) (pre []string, code string
 				c.atom(x.Args[1], &pre)
 			}
 			return pre, "Go.mkMap", false
+		case strings.HasPrefix(lt, "(SMap "):
+			if len(x.Args) == 2 {
+				c.atom(x.Args[1], &pre)
+			}
+			return pre, "Go.mkSMap", false
 		}
 	}
 	pgFail("builtin call %s is outside the subset", norm(x))
